@@ -198,11 +198,26 @@ def absR (q : Rat) : Rat := if q < 0 then -q else q
 /-- `_get_pixel_id` for one axis (repaired): `int(abs(p - coords[0]) / cellsize + 0.5)` -/
 def pixelId (c0 cellsize p : Rat) : Int := (absR (p - c0) / cellsize + 1 / 2).floor
 
-/-- `_is_not_crossable`: NaN (`none`) or equal to a barrier value -/
-def notCrossable (v : Option Rat) (barriers : List Rat) : Bool :=
+/-- a cell or barrier value as the caller wrote it: NaN, ±∞ or an exact real number (whatever
+    dtype the surface has and whatever Python numbers the barrier list holds) -/
+inductive Val where
+  | nan | pinf | ninf
+  | fin (q : Rat)
+  deriving DecidableEq
+
+/-- `==` on exact values: NaN equals nothing, an infinity only itself -/
+def Val.eq : Val → Val → Bool
+  | .fin a, .fin b => a == b
+  | .pinf, .pinf => true
+  | .ninf, .ninf => true
+  | _, _ => false
+
+/-- `_is_not_crossable` on exact values: a cell is a barrier iff it is NaN or its value is one of
+    the listed numbers (no dtype conversion of the list) -/
+def notCrossableV (v : Val) (barriers : List Val) : Bool :=
   match v with
-  | none => true
-  | some x => barriers.any (fun b => x == b)
+  | .nan => true
+  | x => barriers.any (fun b => Val.eq x b)
 
 /-! ### exact costs `a + b√2` with natural `a`, `b` (Dijkstra instance: heuristic 0) -/
 
